@@ -79,11 +79,11 @@ PROPS = {
                      "fault kinds: none exist at this surface"],
     ),
     "C19": dict(
-        quick={"batches": [dict(name="plain-build schedules (result, snapshot, repeatability oracles)", runs=60_000, wall=150, recheck=300),
-                           dict(name="race-build schedules (race detector armed, sync-ignored hand-off)", runs=12_000, wall=150, recheck=100, race=True)],
+        quick={"batches": [dict(name="plain-build schedules (result, snapshot, repeatability oracles)", runs=30_000, wall=150, recheck=300),
+                           dict(name="race-build schedules (race detector armed, sync-ignored hand-off)", runs=6_000, wall=150, recheck=100, race=True)],
                "minimise_wall": 40},
-        thorough={"batches": [dict(name="plain-build schedules (result, snapshot, repeatability oracles)", runs=4_000_000, wall=1500, recheck=2000),
-                              dict(name="race-build schedules (race detector armed, sync-ignored hand-off)", runs=600_000, wall=1500, recheck=500, race=True)],
+        thorough={"batches": [dict(name="plain-build schedules (result, snapshot, repeatability oracles)", runs=2_000_000, wall=1500, recheck=2000),
+                              dict(name="race-build schedules (race detector armed, sync-ignored hand-off)", runs=300_000, wall=1500, recheck=500, race=True)],
                   "minimise_wall": 180},
         race=True,
         anchor_files=["calculator/ExpressionCalculator.go", "calculator/CalculationStack.go", "variants/AbstractVariantOperations.go",
@@ -103,5 +103,28 @@ PROPS = {
                      "clock and random functions are excluded from these workloads (their results legitimately differ); maps with keys that differ "
                      "by case only are excluded (unowned map iteration order)",
                      "fault kinds: none are injected in this check; the explored space is the schedule"],
+    ),
+    "C05": one(
+        12_000, 700_000,
+        anchor_files=["tokenizers/generic/SymbolNode.go", "tokenizers/AbstractTokenizer.go", "mustache/tokenizers/MustacheTokenizer.go",
+                      "calculator/parsers/ExpressionParser.go", "calculator/ExpressionCalculator.go", "mustache/parsers/MustacheParser.go"],
+        rule="A case is a set of 1-3 reused instances (generic / expression / CSV / mustache tokenizer, expression parser, mustache parser, "
+             "calculator, template; seeded option flags), each with a history of 2-12 steps, interleaved at yield points by the seeded scheduler. "
+             "A step is an input (80% from a pool holding every registered multi-character symbol, every token class, unterminated and malformed "
+             "inputs, Latin-1 and non-Latin text; 20% generated) plus a consumption mode (TokenizeBuffer, TokenizeStream over a wrapped scanner, "
+             "SetReader + NextToken loop with 0-3 HasNextToken calls before each fetch) and, in fault runs, a fault at a seam (scanner panics at "
+             "call k, stream ends after k characters, consumer abandons after j tokens, operations manager / variable / function delegate fails). "
+             "The first two steps of the first instance sweep ordered pairs of the pool. Every step is compared with a fresh instance given the "
+             "same step and, for pool inputs without fault, with the result computed at process start. Non-trivial: at least two steps. "
+             "Distinct: hash of (tasks, executed schedule, fault switch).",
+        state_measure="distinct (instance kind, previous input, current input, consumption mode, fault kind) tuples - ordered input pairs covered",
+        fault_kinds=["fail_at", "eof_at", "abandon_after", "op_error", "var_missing", "fn_error", "fn_panic", "fn_error_plain"],
+        probes=["pristine_compared"],
+        real=["all tokenizers, parsers, ExpressionCalculator, MustacheTemplate (instrumented copy)"],
+        stub=["SimScanner (pass-through io.StringScanner that counts calls, ends early or panics at call k)", "SimOps (pass-through operations manager failing at call n)",
+              "SimVariables (pass-through collection hiding one name)", "Faulty / PlainFaulty functions"],
+        assumptions=["a step under a fault is compared with a fresh instance under the same fault (call index resolved against a fault-free dry run)",
+                     "calculator steps pass explicit variables, so the default collection (which legitimately accumulates) is not compared",
+                     "panics of the library inside a step are compared like results (same on fresh instance) and counted as observations; they are C03's business"],
     ),
 }
